@@ -86,7 +86,7 @@ class C18(Prop):
         "cMarkov1_einval_or_ok_ieee", "xMarkov1_einval_or_ok_ieee", "markov1_counts_exact_ieee",
         "iid_complete_ieee", "cMarkov0_complete_ieee", "xMarkov0_complete_ieee", "cMarkov1_complete_ieee", "xMarkov1_complete_ieee")]
     claimed = True
-    technique = ("Lean 4 proof (Fisher-Yates/swap-loop invariants, permutation and support theorems for every generator state) + "
+    technique = ("Lean 4 proof (Fisher-Yates/swap-loop invariants, permutation and support theorems for every generator state; Markov/IID arithmetic over an IEEE-754 carrier with abstract monotone rounding) + "
                  "exact differential correspondence of the executable model (on the C09 generator model) with the ASan/UBSan-built C code + python property monitors on the C output")
     level_text = ("Theorems for every input and every generator state (hence every seed and history), no size bound: plain shuffles keep length and residue multiset (digital: sentinels untouched); "
                   "DP shuffle: ordered-pair multiset, first and last residue and length preserved whenever it returns eslOK, and its two reality checks can never fire (Altschul-Erickson/BEST argument "
@@ -936,7 +936,7 @@ class C18(Prop):
                 "api_coverage": cov,
                 "window_roll_range_read_from_tree": getattr(self, "_win", None),
                 "fplaws_calls": self._laws[0], "fplaws_instances_checked": self._laws[1],
-                "mutations_round6": "10 hand mutants aimed at the new generator shapes (in-place k-mer/window boundaries, esl_vec_* n=2, 17-row / 40-row alignments, QRNA aliasing mode 2, L=2 in-place reversal, DChoose <=): see reports/round6/C18.md",
+                "mutations_round6": "12 hand mutants aimed at the new generator shapes (in-place k-mer/window boundaries, esl_vec_* n=2, 17-row / 40-row / 129-row alignments, column > 1000, QRNA aliasing mode 2, L=2 in-place reversal, DChoose <=), 12 killed: see reports/round6/C18.md",
                 "mutations_caught": "round 4: automatic single-site sweep (tools/mutsweep.py) over esl_msashuffle.c and the modelled functions of esl_randomseq.c: 110 mutants, 91 killed, 19 survivors all classified "
                                     "equivalent (ctype loop bounds where the class is false at 0/127/128, redundant stores, error-path-only statements, message strings, larger allocations, a renormalisation DChoose repeats); "
                                     "13 hand mutants of the newly covered code (index rebuild, sparse per-sequence markup guards, xs/ys copy aliasing, DChoose/FChoose normalisation, VShuffle gap test) all killed, "
